@@ -181,8 +181,8 @@ def report(r, label, ex, documented=None):
     return nman, ndoc
 
 
-def a01_constructors(ctx, groups=None, rule_id='A01', title=None, labels=None, min_entries=1):
-    f = ctx.facts('default')
+def a01_constructors(ctx, groups=None, rule_id='A01', title=None, labels=None, min_entries=1, fs='default'):
+    f = ctx.facts(fs)
     m = Model(f)
     r = RuleResult(rule_id, title or 'constructor-like entry points (method constructors, MA::init, indicator init/validate/set, parsers, window '
                             'constructors, hand-written deserialize) reach no panic / overflow / failed assertion for ANY parameter value')
